@@ -97,6 +97,16 @@ func init() {
 			}
 			return e.Detail["val"] == "StateDead"
 		})
+		// the leaving node is retired only by its own (self-signed) departure claim: an
+		// accusation by somebody else that slips in between Leave setting its flag and
+		// submitting the claim must not mark the local record dead, gossip "failed" and
+		// complete Leave's wait in place of the real leave message
+		c.mayRow(d, "C08/dead/self-retired-only-by-own-claim", "while leaving, the local node's record is rewritten (and Leave's notification armed) only by its own self-signed departure claim, never by another node's accusation", classIn("W:State", "W:Incarnation", "BCAST", "EVT:*"), func(g getf, e *gea.Effect) bool {
+			if isT(g, vSelf) && isT(g, vLeft) {
+				return isT(g, aSelfSig)
+			}
+			return true
+		})
 		waitCh := ""
 		for _, e := range l.x.Effects {
 			if e.Class == "RECV" && strings.Contains(e.Detail["chan"], "leaveBroadcast") {
@@ -153,7 +163,13 @@ func init() {
 			return e.Detail["val"] == "c.Incarnation"
 		})
 		c.mustRow(d, "C08/dead/records-incarnation", "every accepted dead/leave claim stores the claim's incarnation together with the state", []string{"W:Incarnation"}, func(g getf) bool {
-			return isT(g, vOK) && geq(g, vOrd) && !deadOrLeft(g(vS0)) && (!isT(g, vSelf) || isT(g, vLeft))
+			// accepted: about another node, or the leaving node's own self-signed claim
+			return isT(g, vOK) && geq(g, vOrd) && !deadOrLeft(g(vS0)) && (!isT(g, vSelf) || (isT(g, vLeft) && isT(g, aSelfSig)))
+		})
+		// the leaving node's own claim is accepted on every path (otherwise Leave would wait for a
+		// notification nobody arms)
+		c.mustRow(d, "C08/dead/own-claim-accepted", "the leaving node's own self-signed departure claim is accepted on every path: record marked left, departure gossiped with the notification channel", []string{"W:State", "BCAST"}, func(g getf) bool {
+			return isT(g, vOK) && geq(g, vOrd) && !deadOrLeft(g(vS0)) && isT(g, vSelf) && isT(g, vLeft) && isT(g, aSelfSig)
 		})
 		_ = p
 	})
